@@ -85,9 +85,19 @@ pub fn uninstall() {
     *lock() = None;
 }
 
-pub fn set_quiet(quiet: bool) {
-    if let Some(net) = lock().as_mut() {
-        net.quiet = quiet;
+/// Number of message faults injected so far in this run.
+pub fn faults_fired() -> u64 {
+    let st = hooks::state();
+    ["net.drop_request", "net.drop_response", "net.duplicate",
+     "net.late_copy", "net.down"].iter()
+        .map(|k| st.fired.get(*k).copied().unwrap_or(0)).sum()
+}
+
+/// Suspends or resumes the faults; returns the previous setting.
+pub fn set_quiet(quiet: bool) -> bool {
+    match lock().as_mut() {
+        Some(net) => std::mem::replace(&mut net.quiet, quiet),
+        None => false,
     }
 }
 
@@ -206,11 +216,13 @@ fn deliver(uri: &str, body: &[u8]) -> Result<Bytes, String> {
         Plan::Deliver { late_copy, twice, drop_response } => {
             if let Some(old) = late_copy {
                 hooks::state().fire("net.late_copy");
+                if std::env::var("VERIF_KRILL_LOG").is_ok() { eprintln!("== net: late copy to {uri} ({} bytes)", old.len()); }
                 let _ = call(&old);
             }
             let mut res = call(body);
             if twice {
                 hooks::state().fire("net.duplicate");
+                if std::env::var("VERIF_KRILL_LOG").is_ok() { eprintln!("== net: duplicate to {uri}"); }
                 res = call(body);
             }
             hooks::state().fire("net.delivered");
